@@ -1,3 +1,4 @@
+pub mod c02;
 pub mod c05;
 pub mod c08;
 pub mod c09;
@@ -7,6 +8,7 @@ use crate::framework::Prop;
 
 pub fn by_id(id: &str) -> Option<&'static dyn Prop> {
     match id {
+        "C02" => Some(&c02::C02),
         "C05" => Some(&c05::C05),
         "C08" => Some(&c08::C08),
         "C09" => Some(&c09::C09),
